@@ -155,6 +155,35 @@ def check(run):
             n_corr += 1
             if n_corr <= 3:
                 run.tie_broken("correspondence Coord/Model.v vs crates/varpulis-cluster coordinator on timeout %d %s" % (t, json.dumps(ops)), C.first_diff(si, sm))
+    # ---- through the REST handlers of api.rs (handle_manual_migrate, handle_deploy_group, handle_heartbeat, ...)
+    rng = run.rng
+    acases = [(t, C.to_api_ops(ops)) for t, ops in CORPUS]
+    for i in range(150 if run.tier == "quick" else 3000):
+        t = rng.range(2, 6)
+        g = Gen33(rng.fork(), t)
+        g.dishonest = False
+        acases.append((t, C.to_api_ops(g.history(rng.range(6, 14)))))
+    aanswers = C.run_impl_api(binpath, acases)
+    amodel = C.run_model_api(run, "C33api", acases, aanswers)
+    for k, ((t, ops), ans, sm) in enumerate(zip(acases, aanswers, amodel)):
+        si = C.impl_str(ans)
+        kinds = C.kinds(ops)
+        run.case(("api", json.dumps(ops)) if "sweep" in kinds and any(x in kinds for x in ("manual_migrate", "deploy")) else None)
+        run.count("via=api")
+        for s in ans.get("steps", []):
+            if s["res"] == "err:unavailable":
+                run.count("api-migration-target-refused")
+        fails = C.c33_judge(t, ops, ans)
+        if fails:
+            run.count("oracle_fail")
+            n_or += 1
+            if len(run.violations) < 3:
+                run.violation("; ".join(fails)[:600], {"via": "api", "timeout": t, "ops": ops, "implementation": [s["res"] + "~" + C.state_str(s["state"]) for s in ans.get("steps", [])],
+                                                     "contradicts": "C33 theorems in coq/theories/Coord/Props.v"})
+        if sm is not None and si != sm:
+            n_corr += 1
+            if n_corr <= 3:
+                run.tie_broken("correspondence Coord/Model.v vs crates/varpulis-cluster api.rs handlers on timeout %d %s" % (t, json.dumps(ops)), C.first_diff(si, sm))
     run.extra["oracle_failures"] = n_or
     run.extra["disagreements"] = n_corr
 
@@ -163,7 +192,7 @@ def replay(run, path):
     r = json.load(open(path))["replay"]
     ok, bindir, lg = harness.build("vp-coord")
     binpath = os.path.join(bindir, "vp-coord")
-    a = C.run_impl(binpath, [(r["timeout"], r["ops"])])[0]
+    a = (C.run_impl_api if r.get("via") == "api" else C.run_impl)(binpath, [(r["timeout"], r["ops"])])[0]
     f = C.c33_judge(r["timeout"], r["ops"], a)
     run.case(("replay",), {"ops": r["ops"]})
     run.case(("replay2",))
